@@ -156,9 +156,21 @@ def gen_subject(ch, sid, tier, chosen):
             for k in ("exe", "img"):
                 if k not in outs and ch.chance(1, 2, "looseout"):
                     outs.append(k)
+        copt = None
+        if ch.chance(1, 5, "copt"):
+            copt = {"freestanding": bool(ch.chance(1, 2, "cofree")),
+                    "std": "c99", "trigraphs": bool(ch.chance(1, 3, "cotri")),
+                    "defines": [("CFGV", str(ch.draw(100, "cfgv")))]
+                    if ch.chance(1, 2, "codef") else []}
+        xs = None
+        if "img" in outs and ch.chance(1, 3, "extrasyms"):
+            xs = {nm: ch.draw(1 << 16, "xsval")
+                  for nm in ch.perm(["zsym", "asym", "msym", "bsym"],
+                                    "xsnames")[: 2 + ch.draw(3, "nxs")]}
         ops.append({"id": f"s{sid}-{t}-O{opt}", "src": src, "march": t,
                     "opt": opt, "debug": bool(ch.chance(1, 3, "debug")),
-                    "layout": lay, "extra_asm": extra,
+                    "layout": lay, "extra_asm": extra, "copt": copt,
+                    "extra_symbols": xs,
                     "entry": f"{fnp}0", "outputs": outs})
     return ops
 
@@ -343,6 +355,58 @@ def gen_file_ops(ch, b, chosen):
     return ops
 
 
+def gen_recipe_ops(ch, b, chosen):
+    """Whole builds through ppci.api.construct: a build.xml with compile
+    (several sources, two include directories carrying a same-named header),
+    assemble, link with a layout *file* and objcopy tasks."""
+    ops = []
+    cands = [t for t in chosen if base_of(t) in ("x86_64", "riscv", "arm")
+             and ":" not in t]
+    for n in range(ch.weighted([3, 2, 1], "nrecipe") if cands else 0):
+        t = ch.pick(cands, "recipetarget")
+        nsrc = 2 + ch.draw(3, "recipensrc")
+        files = {}
+        names = []
+        for k in range(nsrc):
+            nm = ch.pick(["main", "util", "drv", "alpha", "zeta", "io"],
+                         "srcname") + f"{k}.c"
+            names.append(nm)
+            body = gen_unit(ch, "tiny", fn_prefix=f"m{k}_",
+                            glob_prefix=f"mg{k}_")
+            files[nm] = "#include <common.h>\n" + body + \
+                f"int cfg{k}(void) {{ return COMMON_V + {k}; }}\n"
+        files["inc1/common.h"] = f"#define COMMON_V {ch.draw(100, 'cv1')}\n"
+        files["inc2/common.h"] = f"#define COMMON_V {100 + ch.draw(100, 'cv2')}\n"
+        files["data.asm"] = "section data\n" + "".join(
+            f"rd{k}:\ndd {ch.draw(1 << 30, 'rdw')}\n" for k in range(2))
+        files["layout.mmp"] = (
+            f"MEMORY code LOCATION={hex(0x1000 * (1 + ch.draw(8, 'rlo')))} "
+            "SIZE=0x100000 {\n  SECTION(code)\n  ALIGN(8)\n}\n"
+            "MEMORY ram LOCATION=0x20000000 SIZE=0x100000 {\n"
+            "  SECTION(data)\n}\n")
+        opt = ch.pick([0, 1, 2], "recipeopt")
+        files["build.xml"] = (
+            '<project name="gen" default="all">\n'
+            '<import name="ppci.build.buildtasks" />\n'
+            '<target name="all" depends="prog" />\n'
+            '<target name="prog">\n'
+            f'<ccompile arch="{t}" optimize="{opt}" '
+            f'sources="{";".join(names)}" includes="inc1;inc2" '
+            'output="obj/c.oj" />\n'
+            f'<assemble arch="{t}" source="data.asm" output="obj/d.oj" />\n'
+            '<link output="obj/prog.oj" layout="layout.mmp" '
+            'objects="obj/c.oj;obj/d.oj" />\n'
+            '<objcopy objectfile="obj/prog.oj" imagename="code" '
+            'format="hex" output="obj/prog.hex" />\n'
+            '</target>\n</project>\n')
+        ops.append({"id": f"recipe{b}.{n}-{t}-O{opt}", "lang": "recipe",
+                    "src": files["build.xml"], "files": files, "march": t,
+                    "opt": opt, "produced": ["obj/c.oj", "obj/d.oj",
+                                             "obj/prog.oj", "obj/prog.hex"],
+                    "outputs": ["obj"]})
+    return ops
+
+
 def gen_project_ops(ch, b, chosen):
     """Multi-module programs: archive + link with libraries."""
     ops = []
@@ -402,6 +466,7 @@ def gen_batch(seed, b):
     ops += gen_c3_ops(ch, b, chosen)
     ops += gen_other_lang_ops(ch, b, chosen)
     ops += gen_file_ops(ch, b, chosen)
+    ops += gen_recipe_ops(ch, b, chosen)
     runs = []
     k = 4
     for r in range(k):
